@@ -23,6 +23,7 @@
     xhtml_roundtrip_doc_partial output_no_cr xhtml_roundtrip_doc_readxml_partial doctype_gt_not_recovered_html
     wsfilter_forest wsfilter_forest_whole strip_is_norm_forest_partial html_roundtrip_tree_strip_partial
     xhtml_roundtrip_tree_strip_partial xhtml_roundtrip_tree_qnames_strip_partial
+    html_roundtrip_doc_strip_partial xhtml_roundtrip_doc_strip_partial xhtml_roundtrip_doc_readxml_strip_partial
 -/
 import Genshi.Lemmas.ReaderXhtml
 import Genshi.Lemmas.ReaderTree
@@ -590,28 +591,31 @@ example : okList exWsForest = true ∧ forestUniformNs [] exWsForest = true ∧ 
     that is trimmed and collapsed (`wsNorm`) unless it stands below `pre` / `textarea` (the
     serializer's `_PRESERVE_SPACE`) or an element with `xml:space="preserve"`.  Hence every
     statement about `strip_whitespace=False` applies to the normalised forest (below).
-    Full statement (not proved): also with a doctype option, Markup text leaves (proper escapes),
-    CDATA sections, forests that mix namespaces. -/
-theorem strip_is_norm_forest_partial (m : Method) (cache dropd : Bool) (u : Str) (hu : u ≠ xmlNs) (ns : List Node)
+    With or without a doctype option (`DocTypeInserter` sits behind the filter and looks at the first
+    event only: `serSpec_ws_dt_eq`).
+    Full statement (not proved): also Markup text leaves (proper escapes), CDATA sections, forests
+    that mix namespaces. -/
+theorem strip_is_norm_forest_partial (m : Method) (cache dropd : Bool) (u : Str) (hu : u ≠ xmlNs)
+    (dopt : Option DocTypeT) (ns : List Node)
     (hok : okList ns = true) (hns : forestUniformNs u ns = true) (hd : wsDom m ns = true) :
-    render m { strip := true, cache := cache, doctype := none, dropXmlDecl := dropd } (flattenList ns) =
-      render m { strip := false, cache := cache, doctype := none, dropXmlDecl := dropd }
+    render m { strip := true, cache := cache, doctype := dopt, dropXmlDecl := dropd } (flattenList ns) =
+      render m { strip := false, cache := cache, doctype := dopt, dropXmlDecl := dropd }
         (flattenList (normForest m ns)) := by
   have hc : ∀ (strip : Bool) (s : Stream),
-      render m { strip := strip, cache := cache, doctype := none, dropXmlDecl := dropd } s =
-      render m { strip := strip, cache := false, doctype := none, dropXmlDecl := dropd } s := by
+      render m { strip := strip, cache := cache, doctype := dopt, dropXmlDecl := dropd } s =
+      render m { strip := strip, cache := false, doctype := dopt, dropXmlDecl := dropd } s := by
     intro strip s
     cases cache
     · rfl
-    · exact Genshi.Props.C08.render_cache_irrelevant' m strip none dropd s
+    · exact Genshi.Props.C08.render_cache_irrelevant' m strip dopt dropd s
   rw [hc true, hc false]
-  have h1 := filtered_strip_forestU m dropd u hu none ns hok hns
-  have h2 := filtered_forestU_dt m dropd u hu none (normForest m ns) (okList_normForest m ns hok)
+  have h1 := filtered_strip_forestU m dropd u hu dopt ns hok hns
+  have h2 := filtered_forestU_dt m dropd u hu dopt (normForest m ns) (okList_normForest m ns hok)
     (uniformNs_normForest u m ns hns)
   have hl : ∀ evs, loop m ⟨dropd⟩ false {} evs = serSpec m ⟨dropd⟩ {} evs :=
     fun evs => loop_nocache_eq_spec m ⟨dropd⟩ evs {}
-  simp only [render, chunks, h1, h2, Option.map_some, hl, withDoctype]
-  rw [serSpec_ws_eq m ⟨dropd⟩ u {} rfl ns hd]
+  simp only [render, chunks, h1, h2, Option.map_some, hl]
+  rw [serSpec_ws_dt_eq m ⟨dropd⟩ u dopt ns hd]
 
 /-- html over forests with `strip_whitespace=True`: what is read back is the normalised forest -/
 theorem html_roundtrip_tree_strip_partial (cache dropd : Bool) (u : Str) (hu : u ≠ xmlNs) (ns : List Node)
@@ -619,7 +623,7 @@ theorem html_roundtrip_tree_strip_partial (cache dropd : Bool) (u : Str) (hu : u
     (hh : htmlForestOk (normForest .html ns) = true) :
     (render .html { strip := true, cache := cache, doctype := none, dropXmlDecl := dropd } (flattenList ns)).bind
         (tokens false) = some (assemble (forestPieces (normForest .html ns))) := by
-  rw [strip_is_norm_forest_partial .html cache dropd u hu ns hok hns hd]
+  rw [strip_is_norm_forest_partial .html cache dropd u hu none ns hok hns hd]
   exact html_roundtrip_tree_ns_partial cache dropd u hu _ (okList_normForest .html ns hok)
     (uniformNs_normForest u .html ns hns) hh
 
@@ -629,7 +633,7 @@ theorem xhtml_roundtrip_tree_strip_partial (cache : Bool) (u : Str) (hu : u ≠ 
     (hh : xhtmlForestOk (normForest .xhtml ns) = true) :
     (render .xhtml { strip := true, cache := cache, doctype := none, dropXmlDecl := true } (flattenList ns)).bind
         (tokens true) = some (assemble (forestPiecesXU u false (normForest .xhtml ns))) := by
-  rw [strip_is_norm_forest_partial .xhtml cache true u hu ns hok hns hd]
+  rw [strip_is_norm_forest_partial .xhtml cache true u hu none ns hok hns hd]
   exact xhtml_roundtrip_tree_ns_partial cache u hu huv _ (okList_normForest .xhtml ns hok)
     (uniformNs_normForest u .xhtml ns hns) hh
 
@@ -641,7 +645,7 @@ theorem xhtml_roundtrip_tree_qnames_strip_partial (cache : Bool) (u : Str) (hu :
     (render .xhtml { strip := true, cache := cache, doctype := none, dropXmlDecl := true } (flattenList ns)).bind
         (fun out => (tokens true out).bind (xmlView [])) =
       some ((assemble (forestPiecesXU u false (normForest .xhtml ns))).flatMap (xmlMapTok u)) := by
-  rw [strip_is_norm_forest_partial .xhtml cache true u hu ns hok hns hd]
+  rw [strip_is_norm_forest_partial .xhtml cache true u hu none ns hok hns hd]
   exact xhtml_roundtrip_tree_qnames_partial cache u hu huv _ (okList_normForest .xhtml ns hok)
     (uniformNs_normForest u .xhtml ns hns) hh hx
 
@@ -938,6 +942,82 @@ example : xdXOf ⟨false⟩ exDecl ++ (dtXOf (winDt none exDt) ++
      .start ⟨xhtmlNs, ['b', 'r']⟩ [], .end_ ⟨xhtmlNs, ['b', 'r']⟩,
      .text ['a', '<', '&', ']'], .comment ['c'], .end_ ⟨xhtmlNs, ['p']⟩] := by decide
 
+
+/-! ### whole documents with `strip_whitespace=True` -/
+
+theorem normForest_doc (m : Method) (decl : Option DeclT) (dt : Option DocTypeT) (body : List Node) :
+    normForest m (docNodes decl dt body) = docNodes decl dt (normForest m body) := by
+  cases decl <;> cases dt <;> simp [docNodes, declN, dtN, normForest, normForestA, normTreeA, flushS]
+
+theorem wsDom_doc (m : Method) (decl : Option DeclT) (dt : Option DocTypeT) (body : List Node)
+    (h : wsDom m body = true) : wsDom m (docNodes decl dt body) = true := by
+  cases decl <;> cases dt <;> simpa [docNodes, declN, dtN, wsDom, wsDomF, wsDomT] using h
+
+/-- **html, whole documents, `strip_whitespace=True`**: as `html_roundtrip_doc_partial`, with the
+    body read back as the NORMALISED forest (`normForest`: text runs merged, trimmed and collapsed
+    outside `pre` / `textarea` / `xml:space="preserve"`).  Body inside `wsDom` (plain text leaves, no
+    CDATA markers, script / style hold only text); the other hypotheses are those of the theorem
+    without stripping, on the normalised body. -/
+theorem html_roundtrip_doc_strip_partial (cache dropd : Bool) (u : Str) (hu : u ≠ xmlNs) (dopt : Option DocTypeT)
+    (decl : Option DeclT) (dt : Option DocTypeT) (body : List Node)
+    (hok : okList body = true) (hns : forestUniformNs u body = true) (hd : wsDom .html body = true)
+    (hh : htmlForestOkP (normForest .html body) = true)
+    (hwin : dtOkOf (winDt dopt dt) = true) (hgt : dtNoGtOf (winDt dopt dt) = true) :
+    (render .html { strip := true, cache := cache, doctype := dopt, dropXmlDecl := dropd }
+        (flattenList (docNodes decl dt body))).bind readHtml =
+      some (htmlDocView (winDt dopt dt) (forestPiecesP (normForest .html body))) := by
+  rw [strip_is_norm_forest_partial .html cache dropd u hu dopt _ (okList_doc decl dt body hok)
+    (uniformNs_doc u decl dt body hns) (wsDom_doc .html decl dt body hd), normForest_doc]
+  exact html_roundtrip_doc_partial cache dropd u hu dopt decl dt _ (okList_normForest .html body hok)
+    (uniformNs_normForest u .html body hns) hh hwin hgt
+
+/-- **xhtml, whole documents, `strip_whitespace=True`**, through expat's view (`xmlView`) -/
+theorem xhtml_roundtrip_doc_strip_partial (cache dropd : Bool) (u : Str) (hu : u ≠ xmlNs) (huv : attrValOkB u = true)
+    (dopt : Option DocTypeT) (decl : Option DeclT) (dt : Option DocTypeT) (body : List Node)
+    (hok : okList body = true) (hns : forestUniformNs u body = true) (hd : wsDom .xhtml body = true)
+    (hh : xKidsOkP false (normForest .xhtml body) = true) (hx : xmlForestOkP true (normForest .xhtml body) = true)
+    (hdecl : xdViewOk ⟨dropd⟩ decl = true) (hwin : dtOkOf (winDt dopt dt) = true) :
+    (render .xhtml { strip := true, cache := cache, doctype := dopt, dropXmlDecl := dropd }
+        (flattenList (docNodes decl dt body))).bind (fun out => (tokens true out).bind (xmlView [])) =
+      some (xdXOf ⟨dropd⟩ decl ++ (dtXOf (winDt dopt dt) ++
+        (assemble (forestPiecesXP u false (normForest .xhtml body))).flatMap (xmlMapTok u))) := by
+  rw [strip_is_norm_forest_partial .xhtml cache dropd u hu dopt _ (okList_doc decl dt body hok)
+    (uniformNs_doc u decl dt body hns) (wsDom_doc .xhtml decl dt body hd), normForest_doc]
+  exact xhtml_roundtrip_doc_partial cache dropd u hu huv dopt decl dt _ (okList_normForest .xhtml body hok)
+    (uniformNs_normForest u .xhtml body hns) hh hx hdecl hwin
+
+/-- the same as ONE statement about expat's reading of the output (`readXml`) -/
+theorem xhtml_roundtrip_doc_readxml_strip_partial (cache dropd : Bool) (u : Str) (hu : u ≠ xmlNs)
+    (huv : attrValOkB u = true)
+    (dopt : Option DocTypeT) (decl : Option DeclT) (dt : Option DocTypeT) (body : List Node)
+    (hok : okList body = true) (hns : forestUniformNs u body = true) (hd : wsDom .xhtml body = true)
+    (hh : xKidsOkP false (normForest .xhtml body) = true) (hx : xmlForestOkP true (normForest .xhtml body) = true)
+    (hdecl : xdViewOk ⟨dropd⟩ decl = true) (hwin : dtOkOf (winDt dopt dt) = true)
+    (hcr : docNcr u dopt decl dt (normForest .xhtml body) = true) :
+    (render .xhtml { strip := true, cache := cache, doctype := dopt, dropXmlDecl := dropd }
+        (flattenList (docNodes decl dt body))).bind readXml =
+      some (xdXOf ⟨dropd⟩ decl ++ (dtXOf (winDt dopt dt) ++
+        (assemble (forestPiecesXP u false (normForest .xhtml body))).flatMap (xmlMapTok u))) := by
+  rw [strip_is_norm_forest_partial .xhtml cache dropd u hu dopt _ (okList_doc decl dt body hok)
+    (uniformNs_doc u decl dt body hns) (wsDom_doc .xhtml decl dt body hd), normForest_doc]
+  exact xhtml_roundtrip_doc_readxml_partial cache dropd u hu huv dopt decl dt _ (okList_normForest .xhtml body hok)
+    (uniformNs_normForest u .xhtml body hns) hh hx hdecl hwin hcr
+
+def exWsDocBody : List Node :=
+  [.elem ⟨xhtmlNs, ['h', 't', 'm', 'l']⟩ []
+    [.leaf (.text ['\n', ' ', '\n'] false),
+     .elem ⟨xhtmlNs, ['p']⟩ [] [.leaf (.text ['a', ' ', '\n'] false), .leaf (.text ['\n', '<'] false)],
+     .elem ⟨xhtmlNs, ['p', 'r', 'e']⟩ [] [.leaf (.text [' ', '\n', '\n'] false)]]]
+
+example : okList exWsDocBody = true ∧ forestUniformNs xhtmlNs exWsDocBody = true ∧ wsDom .html exWsDocBody = true ∧
+    wsDom .xhtml exWsDocBody = true ∧ htmlForestOkP (normForest .html exWsDocBody) = true ∧
+    xKidsOkP false (normForest .xhtml exWsDocBody) = true ∧ xmlForestOkP true (normForest .xhtml exWsDocBody) = true ∧
+    docNcr xhtmlNs exDopt exDecl exDt (normForest .xhtml exWsDocBody) = true := by decide
+
+example : (assemble (forestPiecesXP xhtmlNs false (normForest .xhtml exWsDocBody))).flatMap (xmlMapTok xhtmlNs) =
+    [.start ⟨xhtmlNs, ['h', 't', 'm', 'l']⟩ [], .text ['\n'], .start ⟨xhtmlNs, ['p']⟩ [], .text ['a', '\n', '<'],
+     .end_ ⟨xhtmlNs, ['p']⟩, .start ⟨xhtmlNs, ['p', 'r', 'e']⟩ [], .text [' ', '\n', '\n'],
+     .end_ ⟨xhtmlNs, ['p', 'r', 'e']⟩, .end_ ⟨xhtmlNs, ['h', 't', 'm', 'l']⟩] := by decide
 
 def exProlog : List FEv :=
   [.xmlDecl ['1', '.', '0'] none (-1), .doctype ['h', 't', 'm', 'l'] none (some ['a', '"', 'b']),
